@@ -280,6 +280,7 @@ class Ctx:
         self.t0 = time.time()
         self.escalated = False
         self.boost = 1          # > 1 when the anchored sources differ from the fingerprint the checks were tuned on
+        self.last_case = None   # the case being worked on (for the report when the library raises where no stream expects it)
 
     # budget helpers -------------------------------------------------------------------------------------------
     def n(self, quick: int, thorough: int) -> int:
@@ -293,6 +294,7 @@ class Ctx:
 
     def seen(self, case, nontrivial: bool = True) -> None:
         self.evaluations += 1
+        self.last_case = case
         if nontrivial:
             self.nontrivial.add(hashlib.sha1(json.dumps(case, sort_keys=True, default=str).encode()).hexdigest())
         if len(self.samples) < 3 or (len(self.samples) < 6 and self.rng.random() < 0.02):
